@@ -958,23 +958,25 @@ Proof.
   intros L. induction b as [|i r IH]; simpl; auto. intros [A B]. split; [eapply coh_item_le; eauto | auto].
 Qed.
 
-Definition rec_ok (rec : list item -> Z -> result) : Prop :=
-  forall F b1 b2 a, nf_block b1 = nf_block b2 -> coh_block F b1 -> coh_block F b2 ->
-    R nf_block coh_block F b1 b2 (rec b1 a) (rec b2 a).
+Definition rec_ok (rec : list item -> Z -> Z -> result) : Prop :=
+  forall F b1 b2 a c, nf_block b1 = nf_block b2 -> coh_block F b1 -> coh_block F b2 ->
+    R nf_block coh_block F b1 b2 (rec b1 a c) (rec b2 a c).
 
-Lemma loop_R rec : rec_ok rec -> forall n, rec_ok (loop rec n).
+Lemma loop_R budget rec : rec_ok rec -> forall n, rec_ok (loop budget rec n).
 Proof.
-  intros Hrec. induction n as [|k IH]; intros F b1 b2 a Hn C1 C2; cbn [loop].
+  intros Hrec. induction n as [|k IH]; intros F b1 b2 a c Hn C1 C2; cbn [loop].
   - apply R_ok; auto; (eapply coh_block_le; [|eassumption]; intro; allbool).
-  - eapply R_bind; [apply (Hrec F b1 b2 a Hn C1 C2)|].
-    intros bs y1 y2 d1 d2 N1 N2 B K1 K2.
-    assert (K2' : coh_block (F || ne d1) y2) by (rewrite B; exact K2).
-    eapply R_bind; [apply (IH (F || ne d1) y1 y2 (a + Zlen bs)); [congruence | exact K1 | exact K2']|].
-    intros bs2 z1 z2 e1 e2 M1 M2 B' L1 L2.
-    apply R_ok; try congruence.
-    + nebool; allbool.
-    + eapply coh_block_le; [|exact L1]. intro; nebool; allbool.
-    + eapply coh_block_le; [|exact L2]. intro; nebool; allbool.
+  - destruct (over budget (c + 1)).
+    + apply R_ok; auto; (eapply coh_block_le; [|eassumption]; intro; allbool).
+    + eapply R_bind; [apply (Hrec F b1 b2 a (c + 1) Hn C1 C2)|].
+      intros [bs c2] y1 y2 d1 d2 N1 N2 B K1 K2.
+      assert (K2' : coh_block (F || ne d1) y2) by (rewrite B; exact K2).
+      eapply R_bind; [apply (IH (F || ne d1) y1 y2 (a + Zlen bs) c2); [congruence | exact K1 | exact K2']|].
+      intros [bs2 c3] z1 z2 e1 e2 M1 M2 B' L1 L2.
+      apply R_ok; try congruence.
+      * nebool; allbool.
+      * eapply coh_block_le; [|exact L1]. intro; nebool; allbool.
+      * eapply coh_block_le; [|exact L2]. intro; nebool; allbool.
 Qed.
 
 Lemma map_strip_single (y : list tree) c : map strip y = map strip [c] -> exists c', y = [c'] /\ strip c' = strip c.
@@ -982,11 +984,11 @@ Proof.
   destruct y as [|c' [|x r]]; simpl; intros H; try discriminate. inversion H. exists c'. auto.
 Qed.
 
-Lemma compile_item_R rec env : rec_ok rec -> forall F it1 it2 a,
+Lemma compile_item_R budget rec env : rec_ok rec -> forall F it1 it2 a c,
   nf_item it1 = nf_item it2 -> coh_item F it1 -> coh_item F it2 ->
-  R nf_item coh_item F it1 it2 (compile_item rec env a it1) (compile_item rec env a it2).
+  R nf_item coh_item F it1 it2 (compile_item budget rec env a c it1) (compile_item budget rec env a c it2).
 Proof.
-  intros Hrec F it1 it2 a Hn C1 C2.
+  intros Hrec F it1 it2 a c Hn C1 C2.
   destruct it1; destruct it2; simpl in Hn; try discriminate; inversion Hn; clear Hn.
   - (* IWord *)
     simpl in C1, C2. cbn [compile_item].
@@ -1016,15 +1018,15 @@ Proof.
     subst y1 y2. simpl in K1, K2. destruct K1 as [K1 _]. destruct K2 as [K2 _].
     assert (Hb : nf_block body = nf_block body0) by exact H1.
     assert (Fallback : R nf_item coh_item F (IRepeat cnt body) (IRepeat cnt0 body0)
-                         (Ok (([] : list Z), IRepeat c1 body, d1)) (Ok (([] : list Z), IRepeat c2 body0, d2))).
+                         (Ok ((([] : list Z), c), IRepeat c1 body, d1)) (Ok ((([] : list Z), c), IRepeat c2 body0, d2))).
     { apply R_ok; simpl; try congruence.
       - split; [exact K1|]. eapply (coh_block_le F); [|exact B1]. intro; allbool.
       - split; [exact K2|]. eapply (coh_block_le F); [|exact B2]. intro; allbool. }
     destruct ws as [[|n [|x r]]|]; try exact Fallback.
     assert (B2' : coh_block (F || ne d1) body0) by (eapply coh_block_le; [|exact B2]; intro; allbool).
     assert (B1' : coh_block (F || ne d1) body) by (eapply coh_block_le; [|exact B1]; intro; allbool).
-    eapply R_bind; [apply (loop_R rec Hrec (Z.to_nat n) (F || ne d1) body body0 a Hb B1' B2')|].
-    intros bs z1 z2 e1 e2 M1 M2 B' L1 L2.
+    eapply R_bind; [apply (loop_R budget rec Hrec (Z.to_nat n) (F || ne d1) body body0 a c Hb B1' B2')|].
+    intros bsc z1 z2 e1 e2 M1 M2 B' L1 L2.
     apply R_ok.
     + simpl. f_equal; [exact S1 | exact M1].
     + simpl. f_equal; [exact S2 | exact M2].
@@ -1038,25 +1040,25 @@ Qed.
 Lemma nf_item_end it : nf_item it = IEnd -> it = IEnd.
 Proof. destruct it; simpl; intros H; try discriminate. reflexivity. Qed.
 
-Lemma block_R rec env : rec_ok rec -> rec_ok (block rec env).
+Lemma block_R budget rec env : rec_ok rec -> rec_ok (block budget rec env).
 Proof.
-  intros Hrec F b1. revert F. induction b1 as [|i1 r1 IH]; intros F [|i2 r2] a Hn C1 C2; simpl in Hn; try discriminate.
+  intros Hrec F b1. revert F. induction b1 as [|i1 r1 IH]; intros F [|i2 r2] a c Hn C1 C2; simpl in Hn; try discriminate.
   - simpl. auto 10.
   - inversion Hn. clear Hn. rename H0 into Hi. rename H1 into Hr.
     simpl in C1, C2. destruct C1 as [A1 B1]. destruct C2 as [A2 B2].
     assert (Step : R nf_block coh_block F (i1 :: r1) (i2 :: r2)
-              (do x <- compile_item rec env a i1; let '(bs, it', d) := x in
-               do y <- block rec env r1 (a + Zlen bs); let '(bs2, rest', d2) := y in
-               Ok (bs ++ bs2, it' :: rest', d ++ d2))
-              (do x <- compile_item rec env a i2; let '(bs, it', d) := x in
-               do y <- block rec env r2 (a + Zlen bs); let '(bs2, rest', d2) := y in
-               Ok (bs ++ bs2, it' :: rest', d ++ d2))).
-    { eapply R_bind; [apply (compile_item_R rec env Hrec F i1 i2 a Hi A1 A2)|].
-      intros bs y1 y2 d1 d2 N1 N2 B K1 K2.
+              (do x <- compile_item budget rec env a c i1; let '((bs, c1), it', d) := x in
+               do y <- block budget rec env r1 (a + Zlen bs) c1; let '((bs2, c2), rest', d2) := y in
+               Ok ((bs ++ bs2, c2), it' :: rest', d ++ d2))
+              (do x <- compile_item budget rec env a c i2; let '((bs, c1), it', d) := x in
+               do y <- block budget rec env r2 (a + Zlen bs) c1; let '((bs2, c2), rest', d2) := y in
+               Ok ((bs ++ bs2, c2), it' :: rest', d ++ d2))).
+    { eapply R_bind; [apply (compile_item_R budget rec env Hrec F i1 i2 a c Hi A1 A2)|].
+      intros [bs c1] y1 y2 d1 d2 N1 N2 B K1 K2.
       assert (B2' : coh_block (F || ne d1) r2) by (eapply coh_block_le; [|exact B2]; intro; allbool).
       assert (B1' : coh_block (F || ne d1) r1) by (eapply coh_block_le; [|exact B1]; intro; allbool).
-      eapply R_bind; [apply (IH (F || ne d1) r2 (a + Zlen bs) Hr B1' B2')|].
-      intros bs2 z1 z2 e1 e2 M1 M2 B' L1 L2.
+      eapply R_bind; [apply (IH (F || ne d1) r2 (a + Zlen bs) c1 Hr B1' B2')|].
+      intros [bs2 c2] z1 z2 e1 e2 M1 M2 B' L1 L2.
       apply R_ok.
       - simpl. rewrite N1. fold (nf_block z1). fold (nf_block r1). rewrite M1. reflexivity.
       - simpl. rewrite N2. fold (nf_block z2). fold (nf_block r2). rewrite M2. reflexivity.
@@ -1070,10 +1072,10 @@ Proof.
     cbn [block]. apply R_ok; auto; simpl; split; auto; (eapply coh_block_le; [|eassumption]; intro; allbool).
 Qed.
 
-Lemma compile_block_R env : forall fuel, rec_ok (compile_block fuel env).
+Lemma compile_block_R budget env : forall fuel, rec_ok (compile_block budget fuel env).
 Proof.
   induction fuel as [|f IH].
-  - intros F b1 b2 a _ _ _. exact I.
+  - intros F b1 b2 a c _ _ _. exact I.
   - cbn [compile_block]. apply block_R. exact IH.
 Qed.
 
@@ -1088,65 +1090,144 @@ Proof.
   destruct i; simpl in *; try reflexivity. discriminate.
 Qed.
 
-Lemma block_app rec env b1 b2 : top_end b1 = false -> forall a,
-  block rec env (b1 ++ b2) a =
-  (do x <- block rec env b1 a; let '(bs, b1', d) := x in
-   do y <- block rec env b2 (a + Zlen bs); let '(bs2, b2', d2) := y in
-   Ok (bs ++ bs2, b1' ++ b2', d ++ d2)).
+Lemma block_app budget rec env b1 b2 : top_end b1 = false -> forall a c,
+  block budget rec env (b1 ++ b2) a c =
+  (do x <- block budget rec env b1 a c; let '((bs, c1), b1', d) := x in
+   do y <- block budget rec env b2 (a + Zlen bs) c1; let '((bs2, c2), b2', d2) := y in
+   Ok ((bs ++ bs2, c2), b1' ++ b2', d ++ d2)).
 Proof.
-  induction b1 as [|i r IH]; intros Ht a.
+  induction b1 as [|i r IH]; intros Ht a c.
   - simpl. replace (a + Zlen []) with a by (unfold Zlen; simpl; lia).
-    destruct (block rec env b2 a) as [[[bs b'] d]| | |]; reflexivity.
+    destruct (block budget rec env b2 a c) as [[[[bs c2] b'] d]| | |]; reflexivity.
   - simpl in Ht. apply orb_false_iff in Ht. destruct Ht as [Hi Hr].
-    assert (Step : block rec env ((i :: r) ++ b2) a =
-                   (do x <- compile_item rec env a i; let '(bs, it', d) := x in
-                    do y <- block rec env (r ++ b2) (a + Zlen bs); let '(bs2, rest', d2) := y in
-                    Ok (bs ++ bs2, it' :: rest', d ++ d2))).
+    assert (Step : block budget rec env ((i :: r) ++ b2) a c =
+                   (do x <- compile_item budget rec env a c i; let '((bs, c1), it', d) := x in
+                    do y <- block budget rec env (r ++ b2) (a + Zlen bs) c1; let '((bs2, c2), rest', d2) := y in
+                    Ok ((bs ++ bs2, c2), it' :: rest', d ++ d2))).
     { destruct i; try reflexivity. discriminate. }
-    assert (Step1 : block rec env (i :: r) a =
-                   (do x <- compile_item rec env a i; let '(bs, it', d) := x in
-                    do y <- block rec env r (a + Zlen bs); let '(bs2, rest', d2) := y in
-                    Ok (bs ++ bs2, it' :: rest', d ++ d2))).
+    assert (Step1 : block budget rec env (i :: r) a c =
+                   (do x <- compile_item budget rec env a c i; let '((bs, c1), it', d) := x in
+                    do y <- block budget rec env r (a + Zlen bs) c1; let '((bs2, c2), rest', d2) := y in
+                    Ok ((bs ++ bs2, c2), it' :: rest', d ++ d2))).
     { destruct i; try reflexivity. discriminate. }
     rewrite Step, Step1.
-    destruct (compile_item rec env a i) as [[[bs it'] d]| | |]; cbn [bind]; try reflexivity.
+    destruct (compile_item budget rec env a c i) as [[[[bs c1] it'] d]| | |]; cbn [bind]; try reflexivity.
     rewrite (IH Hr).
-    destruct (block rec env r (a + Zlen bs)) as [[[bs1 r'] d1]| | |]; cbn [bind]; try reflexivity.
+    destruct (block budget rec env r (a + Zlen bs) c1) as [[[[bs1 c2] r'] d1]| | |]; cbn [bind]; try reflexivity.
     replace (a + Zlen (bs ++ bs1)) with (a + Zlen bs + Zlen bs1)
       by (unfold Zlen; rewrite app_length, Nat2Z.inj_add; lia).
-    destruct (block rec env b2 (a + Zlen bs + Zlen bs1)) as [[[bs2 b2'] d2]| | |]; cbn [bind]; try reflexivity.
+    destruct (block budget rec env b2 (a + Zlen bs + Zlen bs1) c2) as [[[[bs2 c3] b2'] d2]| | |]; cbn [bind]; try reflexivity.
     rewrite !app_assoc. reflexivity.
 Qed.
 
-(* same bytes, and an error has been reported in one run iff in the other *)
+(* same bytes, and an error has been reported in one run iff in the other (the repetition counts
+   differ: the repeat counts its own iterations, the written-out text has none to count) *)
 Definition Rout (F : bool) (r1 r2 : result) : Prop :=
   match r1, r2 with
-  | Ok (bs1, _, d1), Ok (bs2, _, d2) => bs1 = bs2 /\ (F || ne d1 = F || ne d2)
+  | Ok ((bs1, _), _, d1), Ok ((bs2, _), _, d2) => bs1 = bs2 /\ (F || ne d1 = F || ne d2)
   | Err _, Err _ => True
   | Crash s1, Crash s2 => s1 = s2
   | OutOfFuel, OutOfFuel => True
   | _, _ => False
   end.
 
-Lemma repeat_unroll_gen rec env body : rec_ok rec -> top_end body = false ->
-  forall n F b a, nf_block b = nf_block body -> coh_block F b -> coh_block F body ->
-    Rout F (loop (block rec env) n b a) (block rec env (written_out n body) a).
+(* without a budget the counter does not influence anything *)
+Definition counter_free (rec : list item -> Z -> Z -> result) : Prop :=
+  forall b a c c', match rec b a c, rec b a c' with
+                   | Ok ((bs1, _), y1, d1), Ok ((bs2, _), y2, d2) => bs1 = bs2 /\ y1 = y2 /\ d1 = d2
+                   | Err e1, Err e2 => e1 = e2
+                   | Crash s1, Crash s2 => s1 = s2
+                   | OutOfFuel, OutOfFuel => True
+                   | _, _ => False
+                   end.
+
+Lemma loop_counter_free rec : counter_free rec -> forall n, counter_free (loop None rec n).
 Proof.
-  intros Hrec Ht. induction n as [|k IH]; intros F b a Hn C1 C2.
+  intros H. induction n as [|k IH]; intros b a c c'; cbn [loop over].
+  - auto.
+  - specialize (H b a (c + 1) (c' + 1)).
+    destruct (rec b a (c + 1)) as [[[[bs c2] y] d]| | |]; destruct (rec b a (c' + 1)) as [[[[bs' c2'] y'] d']| | |];
+      try contradiction; cbn [bind]; auto.
+    destruct H as [E1 [E2 E3]]. subst.
+    specialize (IH y' (a + Zlen bs') c2 c2').
+    destruct (loop None rec k y' (a + Zlen bs') c2) as [[[[bs2 c3] z] e]| | |];
+      destruct (loop None rec k y' (a + Zlen bs') c2') as [[[[bs2' c3'] z'] e']| | |]; try contradiction; cbn [bind]; auto.
+    destruct IH as [E1 [E2 E3]]. subst. auto.
+Qed.
+
+Lemma item_counter_free rec env : counter_free rec -> forall it a c c',
+  match compile_item None rec env a c it, compile_item None rec env a c' it with
+  | Ok ((bs1, _), y1, d1), Ok ((bs2, _), y2, d2) => bs1 = bs2 /\ y1 = y2 /\ d1 = d2
+  | Err e1, Err e2 => e1 = e2
+  | Crash s1, Crash s2 => s1 = s2
+  | OutOfFuel, OutOfFuel => True
+  | _, _ => False
+  end.
+Proof.
+  intros H it a c c'. destruct it; cbn [compile_item].
+  - destruct (cook (Some 16) false env a ops) as [[[ws ops'] d]| | |]; cbn [bind]; auto. destruct ws; auto.
+  - destruct (cook (Some 8) false env a ops) as [[[ws ops'] d]| | |]; cbn [bind]; auto. destruct ws; auto.
+  - auto.
+  - destruct (compile_ops env a 0 ops) as [[[[opc exts] ops'] d]| | |]; cbn [bind]; auto.
+  - destruct (cook None true env a [cnt]) as [[[ws cnt'] d]| | |]; cbn [bind]; auto.
+    destruct ws as [[|n [|x r]]|]; auto.
+    pose proof (loop_counter_free rec H (Z.to_nat n) body a c c') as L.
+    destruct (loop None rec (Z.to_nat n) body a c) as [[[[bs c2] y] e]| | |];
+      destruct (loop None rec (Z.to_nat n) body a c') as [[[[bs' c2'] y'] e']| | |]; try contradiction; cbn [bind]; auto.
+    destruct L as [E1 [E2 E3]]. subst. auto.
+  - auto.
+Qed.
+
+Lemma block_counter_free rec env : counter_free rec -> counter_free (block None rec env).
+Proof.
+  intros H b. induction b as [|i r IH]; intros a c c'; [simpl; auto|].
+  assert (Step : forall k, block None rec env (i :: r) a k =
+                   match i with IEnd => Ok (([], k), i :: r, []) | _ =>
+                   (do x <- compile_item None rec env a k i; let '((bs, c1), it', d) := x in
+                    do y <- block None rec env r (a + Zlen bs) c1; let '((bs2, c2), rest', d2) := y in
+                    Ok ((bs ++ bs2, c2), it' :: rest', d ++ d2)) end).
+  { intros k. destruct i; reflexivity. }
+  rewrite !Step. destruct i; auto;
+  match goal with |- context [compile_item None rec env a c ?it] =>
+    pose proof (item_counter_free rec env H it a c c') as I;
+    destruct (compile_item None rec env a c it) as [[[[bs c1] y] d]| | |];
+      destruct (compile_item None rec env a c' it) as [[[[bs' c1'] y'] d']| | |]; try contradiction; cbn [bind]; auto;
+    destruct I as [E1 [E2 E3]]; subst;
+    specialize (IH (a + Zlen bs') c1 c1');
+    destruct (block None rec env r (a + Zlen bs') c1) as [[[[bs2 c2] z] e]| | |];
+      destruct (block None rec env r (a + Zlen bs') c1') as [[[[bs2' c2'] z'] e']| | |]; try contradiction; cbn [bind]; auto;
+    destruct IH as [E1 [E2 E3]]; subst; auto
+  end.
+Qed.
+
+Lemma compile_block_counter_free env : forall fuel, counter_free (compile_block None fuel env).
+Proof.
+  induction fuel as [|f IH]; [intros b a c c'; exact I|].
+  cbn [compile_block]. apply block_counter_free. exact IH.
+Qed.
+
+Lemma repeat_unroll_gen rec env body : rec_ok rec -> counter_free rec -> top_end body = false ->
+  forall n F b a c c', nf_block b = nf_block body -> coh_block F b -> coh_block F body ->
+    Rout F (loop None (block None rec env) n b a c) (block None rec env (written_out n body) a c').
+Proof.
+  intros Hrec Hcf Ht. induction n as [|k IH]; intros F b a c c' Hn C1 C2.
   - simpl. auto.
   - unfold written_out. cbn [repeat List.concat]. fold (written_out k body).
-    rewrite (block_app rec env body (written_out k body) Ht). cbn [loop].
-    pose proof (block_R rec env Hrec F b body a Hn C1 C2) as E.
-    destruct (block rec env b a) as [[[bs1 y1] d1]|e1|s1|]; destruct (block rec env body a) as [[[bs2 y2] d2]|e2|s2|];
-      simpl in E; try tauto; cbn [bind]; simpl; auto.
-    destruct E as [Eb [N1 [N2 [B [K1 K2]]]]]. subst bs2.
+    rewrite (block_app None rec env body (written_out k body) Ht). cbn [loop over].
+    pose proof (block_R None rec env Hrec F b body a (c + 1) Hn C1 C2) as E.
+    pose proof (block_counter_free rec env Hcf body a (c + 1) c') as CF.
+    destruct (block None rec env b a (c + 1)) as [[[[bs1 k1] y1] d1]|e1|s1|];
+      destruct (block None rec env body a (c + 1)) as [[[[bs2 k2] y2] d2]|e2|s2|]; simpl in E; try tauto;
+      destruct (block None rec env body a c') as [[[[bs3 k3] y3] d3]|e3|s3|]; try contradiction; cbn [bind]; simpl; auto; try congruence.
+    destruct E as [Eb [N1 [N2 [B [K1 K2]]]]]. inversion Eb; subst bs2 k2. clear Eb.
+    destruct CF as [E1 [E2 E3]]. subst bs3 y3 d3.
     assert (C2' : coh_block (F || ne d1) body) by (eapply coh_block_le; [|exact C2]; intro; allbool).
     assert (Hn' : nf_block y1 = nf_block body) by congruence.
-    specialize (IH (F || ne d1) y1 (a + Zlen bs1) Hn' K1 C2').
-    destruct (loop (block rec env) k y1 (a + Zlen bs1)) as [[[bs3 z1] e1]|e1|s1|];
-      destruct (block rec env (written_out k body) (a + Zlen bs1)) as [[[bs4 z2] e2]|e2|s2|];
+    specialize (IH (F || ne d1) y1 (a + Zlen bs1) k1 k3 Hn' K1 C2').
+    destruct (loop None (block None rec env) k y1 (a + Zlen bs1) k1) as [[[[bs4 k4] z1] e1]|e1|s1|];
+      destruct (block None rec env (written_out k body) (a + Zlen bs1) k3) as [[[[bs5 k5] z2] e2]|e2|s2|];
       simpl in IH; try tauto; cbn [bind]; simpl; auto.
-    destruct IH as [Eb' B']. subst bs4. simpl. split; [reflexivity|]. nebool; allbool.
+    destruct IH as [Eb' B']. subst bs5. split; [reflexivity|]. nebool; allbool.
 Qed.
 
 Lemma coh_list_strip F ops : coh_list F (map strip ops).
@@ -1174,17 +1255,116 @@ Proof. induction b as [|i r IH]; simpl; auto. split; [apply coh_item_nf | exact 
 Lemma coh_block_fresh F b : nf_block b = b -> coh_block F b.
 Proof. intros H. rewrite <- H. apply coh_block_nf. Qed.
 
-Lemma repeat_unroll f env n body a :
+Lemma repeat_unroll_free f env n body a c c' :
   has_end body = false -> coh_block false body ->
-  outcome_of (repeat_model (S f) env n body a) = outcome_of (unrolled (S f) env n body a).
+  outcome_of (repeat_model None (S f) env n body a c) = outcome_of (unrolled None (S f) env n body a c').
 Proof.
   intros He Hc. unfold repeat_model, unrolled. cbn [compile_block].
-  pose proof (repeat_unroll_gen (compile_block f env) env body (compile_block_R env f) (has_end_top body He)
-                n false body a eq_refl Hc Hc) as H.
-  destruct (loop (block (compile_block f env) env) n body a) as [[[bs1 z1] d1]|e1|s1|];
-    destruct (block (compile_block f env) env (written_out n body) a) as [[[bs2 z2] d2]|e2|s2|];
+  pose proof (repeat_unroll_gen (compile_block None f env) env body (compile_block_R None env f)
+                (compile_block_counter_free env f) (has_end_top body He)
+                n false body a c c' eq_refl Hc Hc) as H.
+  destruct (loop None (block None (compile_block None f env) env) n body a c) as [[[[bs1 k1] z1] d1]|e1|s1|];
+    destruct (block None (compile_block None f env) env (written_out n body) a c') as [[[[bs2 k2] z2] d2]|e2|s2|];
     simpl in H; try tauto; simpl; try congruence.
   destruct H as [E B]. subst. destruct d1, d2; simpl in *; congruence.
+Qed.
+
+(* ---- the budget: a run that ends within it is the run without a budget ---------------------- *)
+Definition agrees (m : Z) (recS recN : list item -> Z -> Z -> result) : Prop :=
+  forall b a c bs k y d, recS b a c = Ok ((bs, k), y, d) -> k <= m -> c <= k /\ recN b a c = Ok ((bs, k), y, d).
+
+Lemma loop_agrees m recS recN : agrees m recS recN -> forall n, agrees m (loop (Some m) recS n) (loop None recN n).
+Proof.
+  intros H. induction n as [|j IH]; intros b a c bs k y d E Hk; cbn [loop over] in *.
+  - inversion E; subst. split; [lia | reflexivity].
+  - destruct (Z.ltb m (c + 1)) eqn:O.
+    + inversion E; subst. apply Z.ltb_lt in O. lia.
+    + destruct (recS b a (c + 1)) as [[[[bs1 c2] y1] d1]| | |] eqn:E1; cbn [bind] in E; try discriminate.
+      destruct (loop (Some m) recS j y1 (a + Zlen bs1) c2) as [[[[bs2 c3] y2] d2]| | |] eqn:E2; cbn [bind] in E; try discriminate.
+      inversion E; subst. clear E.
+      destruct (IH _ _ _ _ _ _ _ E2 Hk) as [L2 N2].
+      destruct (H _ _ _ _ _ _ _ E1 ltac:(lia)) as [L1 N1].
+      split; [lia|]. rewrite N1. cbn [bind]. rewrite N2. reflexivity.
+Qed.
+
+Lemma item_agrees m recS recN env : agrees m recS recN -> forall it a c bs k y d,
+  compile_item (Some m) recS env a c it = Ok ((bs, k), y, d) -> k <= m ->
+  c <= k /\ compile_item None recN env a c it = Ok ((bs, k), y, d).
+Proof.
+  intros H it a c bs k y d E Hk. destruct it; cbn [compile_item] in *.
+  - destruct (cook (Some 16) false env a ops) as [[[ws ops'] d1]| | |]; cbn [bind] in *; try discriminate.
+    destruct ws; inversion E; subst; split; try lia; reflexivity.
+  - destruct (cook (Some 8) false env a ops) as [[[ws ops'] d1]| | |]; cbn [bind] in *; try discriminate.
+    destruct ws; inversion E; subst; split; try lia; reflexivity.
+  - inversion E; subst. split; [lia | reflexivity].
+  - destruct (compile_ops env a 0 ops) as [[[[opc exts] ops'] d1]| | |]; cbn [bind] in *; try discriminate.
+    inversion E; subst. split; [lia | reflexivity].
+  - destruct (cook None true env a [cnt]) as [[[ws cnt'] d1]| | |]; cbn [bind] in *; try discriminate.
+    destruct ws as [[|n [|x r]]|]; try (inversion E; subst; split; [lia | reflexivity]).
+    destruct (loop (Some m) recS (Z.to_nat n) body a c) as [[[bs1 k1] y1] d2| | |] eqn:E1; cbn [bind] in E; try discriminate.
+    inversion E; subst. clear E.
+    destruct (loop_agrees m recS recN H (Z.to_nat n) _ _ _ _ _ _ _ E1 Hk) as [L N].
+    split; [exact L|]. rewrite N. reflexivity.
+  - inversion E; subst. split; [lia | reflexivity].
+Qed.
+
+Lemma block_agrees m recS recN env : agrees m recS recN -> agrees m (block (Some m) recS env) (block None recN env).
+Proof.
+  intros H b. induction b as [|i r IH]; intros a c bs k y d E Hk.
+  - simpl in *. inversion E; subst. split; [lia | reflexivity].
+  - assert (StepS : block (Some m) recS env (i :: r) a c =
+                   match i with IEnd => Ok (([], c), i :: r, []) | _ =>
+                   (do x <- compile_item (Some m) recS env a c i; let '((bs, c1), it', d) := x in
+                    do y <- block (Some m) recS env r (a + Zlen bs) c1; let '((bs2, c2), rest', d2) := y in
+                    Ok ((bs ++ bs2, c2), it' :: rest', d ++ d2)) end) by (destruct i; reflexivity).
+    assert (StepN : block None recN env (i :: r) a c =
+                   match i with IEnd => Ok (([], c), i :: r, []) | _ =>
+                   (do x <- compile_item None recN env a c i; let '((bs, c1), it', d) := x in
+                    do y <- block None recN env r (a + Zlen bs) c1; let '((bs2, c2), rest', d2) := y in
+                    Ok ((bs ++ bs2, c2), it' :: rest', d ++ d2)) end) by (destruct i; reflexivity).
+    rewrite StepS in E. rewrite StepN.
+    assert (Gen : forall it,
+              (do x <- compile_item (Some m) recS env a c it; let '((bs, c1), it', d) := x in
+               do y <- block (Some m) recS env r (a + Zlen bs) c1; let '((bs2, c2), rest', d2) := y in
+               Ok ((bs ++ bs2, c2), it' :: rest', d ++ d2)) = Ok ((bs, k), y, d) ->
+              c <= k /\
+              (do x <- compile_item None recN env a c it; let '((bs, c1), it', d) := x in
+               do y <- block None recN env r (a + Zlen bs) c1; let '((bs2, c2), rest', d2) := y in
+               Ok ((bs ++ bs2, c2), it' :: rest', d ++ d2)) = Ok ((bs, k), y, d)).
+    { intros it E0.
+      destruct (compile_item (Some m) recS env a c it) as [[[[bs1 c1] it'] d1]| | |] eqn:E1; cbn [bind] in E0; try discriminate.
+      destruct (block (Some m) recS env r (a + Zlen bs1) c1) as [[[[bs2 c2] r'] d2]| | |] eqn:E2; cbn [bind] in E0; try discriminate.
+      inversion E0; subst. clear E0.
+      destruct (IH _ _ _ _ _ _ E2 Hk) as [L2 N2].
+      destruct (item_agrees m recS recN env H _ _ _ _ _ _ _ E1 ltac:(lia)) as [L1 N1].
+      split; [lia|]. rewrite N1. cbn [bind]. rewrite N2. reflexivity. }
+    destruct i; try (apply Gen; exact E).
+    inversion E; subst. split; [lia | reflexivity].
+Qed.
+
+Lemma compile_block_agrees m env : forall fuel, agrees m (compile_block (Some m) fuel env) (compile_block None fuel env).
+Proof.
+  induction fuel as [|f IH]; [intros b a c bs k y d E; discriminate|].
+  cbn [compile_block]. apply block_agrees. exact IH.
+Qed.
+
+(* repeat_unroll with the code's budget: when both the repeat and the written-out text are compiled
+   with the total number of repetitions within the budget, they give the same outcome.  (Beyond it the
+   repeat is refused with 'value-out-of-bounds' while the written-out text, which has fewer repetitions
+   to count, may not be.) *)
+Lemma repeat_unroll m f env n body a c :
+  has_end body = false -> coh_block false body ->
+  within m (repeat_model (Some m) (S f) env n body a c) ->
+  within m (unrolled (Some m) (S f) env n body a c) ->
+  outcome_of (repeat_model (Some m) (S f) env n body a c) = outcome_of (unrolled (Some m) (S f) env n body a c).
+Proof.
+  intros He Hc [bs1 [k1 [y1 [d1 [E1 L1]]]]] [bs2 [k2 [y2 [d2 [E2 L2]]]]].
+  pose proof (repeat_unroll_free f env n body a c c He Hc) as Free.
+  unfold repeat_model in E1.
+  destruct (loop_agrees m _ _ (compile_block_agrees m env (S f)) n _ _ _ _ _ _ _ E1 L1) as [_ N1].
+  unfold unrolled in E2.
+  destruct (compile_block_agrees m env (S f) _ _ _ _ _ _ _ E2 L2) as [_ N2].
+  unfold repeat_model, unrolled in *. rewrite E1, E2. rewrite N1, N2 in Free. exact Free.
 Qed.
 
 (* ============================================================================================ *)
@@ -1211,9 +1391,9 @@ Lemma flags_only_affect_diagnostics env dot F t1 t2 :
   same_result F (eval env dot t1) (eval env dot t2).
 Proof. intros. eapply R_same. apply eval_R; assumption. Qed.
 
-Lemma body_annotations_irrelevant fuel env F b1 b2 a :
+Lemma body_annotations_irrelevant budget fuel env F b1 b2 a c :
   nf_block b1 = nf_block b2 -> coh_block F b1 -> coh_block F b2 ->
-  same_result F (compile_block fuel env b1 a) (compile_block fuel env b2 a).
+  same_result F (compile_block budget fuel env b1 a c) (compile_block budget fuel env b2 a c).
 Proof. intros. eapply R_same. apply compile_block_R; assumption. Qed.
 
 (* a hit returns what a recomputation (empty cache) returns *)
